@@ -220,7 +220,8 @@ def adapter_cases(ctx: Ctx, res: Result, n: int):
     del REFUSED[:]
     for i in range(n):
         rng = make_rng(ctx.seed, f"C02/adapter/{i}")
-        ds, desc = tvdata.draw_case(rng, small=True, force={"NT": int(rng.integers(2, 5))})
+        # alternately with and without a lattice-parameter block (without one the strain fractions are equal thirds: "e_i" of the formula)
+        ds, desc = tvdata.draw_case(rng, small=True, force={"NT": int(rng.integers(2, 5)), "lattice": bool((i + ctx.seed) % 2)})
         files = tvdata.case_files(ds)
         fs_all = adapter_oracle(files)
         done += 1
